@@ -275,8 +275,9 @@ func gen(rng *rand.Rand) Case {
 	case 1:
 		c.Chosen = []string{"zzz-not-there"}
 	default:
+		// the empty tag may be listed too: it selects the entries that have no tag
 		for _, t := range tagSet {
-			if t != "" && rng.Intn(2) == 0 {
+			if (t != "" && rng.Intn(2) == 0) || (t == "" && rng.Intn(3) == 0) {
 				c.Chosen = append(c.Chosen, t)
 			}
 		}
@@ -301,6 +302,8 @@ func seeds() []Case {
 		{File: mk([]string{"a", "b"}), Limit: 1, Passes: 0, Chosen: []string{"zzz"}},
 		{File: mk([]string{"a", "b", "c"}), Limit: 2, Passes: 1},
 		{File: mk([]string{"a"}), Limit: 0, Passes: 2},
+		{File: mk([]string{"", "b", "", "a"}), Limit: 5, Passes: 0, Chosen: []string{"", "b"}},
+		{File: mk([]string{"a", "", ""}), Limit: 0, Passes: 2, Chosen: []string{""}},
 		{File: mk([]string{"a", "b", "c", "a", "b"}), Limit: 3, Passes: 2, EmptyChosen: true},
 		{File: mk([]string{"a", "b", "c"}), Limit: 4, Passes: 0, EmptyChosen: true},
 	}
